@@ -282,6 +282,83 @@ pub fn run(em: &mut Emit, thorough: bool, seed: u64) {
             }
         }
     }
+    // The documented way of handing host data to a context, `Context::add_variable`, converts like
+    // `to_value` (in a root context and in an inner scope), and the `From` conversions a host builds
+    // values with give the value of the same shape.  Laws on the implementation.
+    {
+        let mut data: Vec<SData> = fixed.clone();
+        for _ in 0..200 {
+            data.push(rand_sdata(&mut rng, 3));
+        }
+        for d in data {
+            let disp = format!("{:?}", d);
+            let d1 = d.clone();
+            let law = guarded(move || {
+                let render = |r: &Result<Value, String>| match r {
+                    Ok(v) => format!("(ok {})", sx_value(v)),
+                    Err(_) => "(err invalid)".to_string(),
+                };
+                let direct = render(&to_value(&d1).map_err(|e| e.to_string()));
+                let mut root = cel_interpreter::Context::default();
+                let via_root = render(&root.add_variable("v", d1.clone()).map_err(|e| e.to_string()).and_then(|_| root.get_variable("v").map_err(|e| e.to_string())));
+                let outer = cel_interpreter::Context::default();
+                let mut inner = outer.new_inner_scope();
+                let via_inner = render(&inner.add_variable("v", &d1).map_err(|e| e.to_string()).and_then(|_| inner.get_variable("v").map_err(|e| e.to_string())));
+                if via_root == direct && via_inner == direct { "(bool true)".to_string() }
+                else { format!("(law-violated add-variable-differs-from-to-value to_value {} root {} inner scope {})", direct, via_root, via_inner) }
+            });
+            em.case("(echo (bool true))", &law, "nt=1;kind=law-add-variable", &disp);
+        }
+        let law = guarded(|| {
+            use cel_interpreter::objects::Key;
+            use std::sync::Arc;
+            let list = |v: Vec<Value>| Value::List(Arc::new(v));
+            let s = |t: &str| Value::String(Arc::new(t.to_string()));
+            let checks: Vec<(&str, Value, Value)> = vec![
+                ("Vec<i64>", Value::from(vec![1i64, -2, i64::MIN]), list(vec![Value::Int(1), Value::Int(-2), Value::Int(i64::MIN)])),
+                ("Vec<u64>", Value::from(vec![u64::MAX]), list(vec![Value::UInt(u64::MAX)])),
+                ("empty Vec<bool>", Value::from(Vec::<bool>::new()), list(vec![])),
+                ("Vec<Vec<f64>>", Value::from(vec![vec![1.5f64], vec![]]), list(vec![list(vec![Value::Float(1.5)]), list(vec![])])),
+                ("Vec<u8>", Value::from(vec![0u8, 255, 7]), Value::Bytes(Arc::new(vec![0, 255, 7]))),
+                ("String", Value::from("héllo 😀".to_string()), s("héllo 😀")),
+                ("&str", Value::from("é"), s("é")),
+                ("empty &str", Value::from(""), s("")),
+                ("&str with blanks", Value::from(" a\n\t"), s(" a\n\t")),
+                ("String with blanks and NUL", Value::from("\u{0} b \u{a0}".to_string()), s("\u{0} b \u{a0}")),
+                ("Some(i64)", Value::from(Some(5i64)), Value::Int(5)),
+                ("None", Value::from(None::<i64>), Value::Null),
+                ("Some(None)", Value::from(Some(None::<bool>)), Value::Null),
+                ("Some(Some(&str))", Value::from(Some(Some("x"))), s("x")),
+                ("Vec<Option<u64>>", Value::from(vec![Some(1u64), None]), list(vec![Value::UInt(1), Value::Null])),
+                ("&Key::Int", Value::from(&Key::Int(-3)), Value::Int(-3)),
+                ("&Key::Uint", Value::from(&Key::Uint(u64::MAX)), Value::UInt(u64::MAX)),
+                ("&Key::Bool", Value::from(&Key::Bool(true)), Value::Bool(true)),
+                ("&Key::String", Value::from(&Key::String(Arc::new("k".to_string()))), s("k")),
+                ("Key::Uint", Value::from(Key::Uint(9223372036854775808)), Value::UInt(9223372036854775808)),
+                ("&Value", Value::from(&Value::UInt(3)), Value::UInt(3)),
+                ("i64", Value::from(i64::MIN), Value::Int(i64::MIN)),
+                ("u64", Value::from(u64::MAX), Value::UInt(u64::MAX)),
+                ("f64", Value::from(-0.0f64), Value::Float(-0.0)),
+                ("bool", Value::from(false), Value::Bool(false)),
+            ];
+            let mut bad = Vec::new();
+            for (what, got, want) in checks {
+                if sx_value(&got) != sx_value(&want) {
+                    bad.push(format!("{}: {} instead of {}", what, sx_value(&got), sx_value(&want)));
+                }
+            }
+            let keys = [(Key::from(&Key::Uint(7)), Key::Uint(7)), (Key::from("k"), Key::String(Arc::new("k".to_string()))),
+                        (Key::from("k".to_string()), Key::String(Arc::new("k".to_string()))), (Key::from(-1i64), Key::Int(-1)),
+                        (Key::from(1u64), Key::Uint(1)), (Key::from(true), Key::Bool(true))];
+            for (got, want) in keys {
+                if got != want {
+                    bad.push(format!("key {:?} instead of {:?}", got, want));
+                }
+            }
+            if bad.is_empty() { "(bool true)".to_string() } else { format!("(law-violated from-conversion {})", bad.join("; ")) }
+        });
+        em.case("(echo (bool true))", &law, "nt=1;kind=law-from", "From conversions into Value and Key");
+    }
     // The lengths a Serialize implementation announces (sequences, tuples, tuple structs and
     // variants, maps, struct variants) are hints and need not be true: the conversion is the same
     // whatever is announced - never a panic or an abort from trusting the hint for an allocation.
